@@ -44,6 +44,10 @@ CATALOGUE = [
     ("ac6", ["{I}«clrf »r6"], "implicit-accumulator", "error", ("T",)),
     ("register-as-value", ["{I}«.word »r0"], "unexpected-register", "error", ("T",)),
     ("postfix-as-value", ["{I}«.word »5+"], "unexpected-value", "error", ("T", "T+1")),
+    ("at-inside-immediate", ["{I}«mov #»@5, r0"], "unexpected-value", "error", ("T",)),
+    ("percent-inside-immediate", ["{I}«mov #»%1, r1"], "unexpected-value", "error", ("T",)),
+    ("hash-inside-deferred-word", ["{I}«.word @»#5"], "unexpected-value", "error", ("T", "T-1")),
+    ("hash-after-minus", ["{I}«.word - »#5"], "unexpected-value", "error", ("T",)),
     ("hash-as-value", ["{I}«.word 1 + »#2"], None, "critical", None),
     ("duplicate-label", ["duplab:", "{I}nop", "{I}«»duplab: nop"], "duplicate-symbol", "error", ("T",)),
     ("duplicate-constant", ["dupcon = 1", "{I}«»dupcon = 2"], "duplicate-symbol", "error", ("T",)),
